@@ -59,7 +59,7 @@ def window():
     """for every writing command W and every prior type of the watched key: WATCH K; (other client) W;
     MULTI; SET marker; EXEC — and the same with non-writers; plus W issued by the watcher itself"""
     c = lambda conn, args: f"resp {conn} " + " ".join(hx(x) for x in args)
-    ops = ["open a mem", "conn c1", "conn c2"]
+    ops = ["open a mem", "conn c1", "conn c2", "conn c3"]
     i = 0
     for who in ("c2", "c1"):
         for typ, setup in TYPES.items():
@@ -84,6 +84,20 @@ def window():
         K = f"e{i}"
         ops += [c("c1", ("WATCH", K)), c("c1", ("MULTI",)) if ender[0] != "UNWATCH" else c("c1", ("PING",)), c("c1", ender), c("c2", ("SET", K, "changed")),
                 c("c1", ("MULTI",)), c("c1", ("SET", f"m{i}", "1")), c("c1", ("EXEC",)), c("c1", ("EXISTS", f"m{i}"))]
+    # several connections watch one key; one of them ends its watch (EXEC / DISCARD / UNWATCH, having
+    # watched first or last); a later write must still abort every remaining watcher, and only those
+    for ender in (("EXEC",), ("DISCARD",), ("UNWATCH",)):
+        for order in (("c1", "c3"), ("c3", "c1")):
+            i += 1
+            K = f"m{i}"
+            ops += [c("c2", ("SET", K, "0"))]
+            ops += [c(conn, ("WATCH", K)) for conn in order]
+            # c3 ends its watch without any write in between
+            ops += [c("c3", ("MULTI",)) if ender[0] != "UNWATCH" else c("c3", ("PING",)), c("c3", ender)]
+            ops += [c("c2", ("SET", K, "99"))]
+            ops += [c("c1", ("MULTI",)), c("c1", ("SET", K, "11")), c("c1", ("EXEC",)), c("c1", ("GET", K))]
+            # and the connection that left is not aborted by that write
+            ops += [c("c3", ("MULTI",)), c("c3", ("SET", K, "33")), c("c3", ("EXEC",)), c("c3", ("GET", K))]
     # a second WATCH (of the same key, of the same key among others, of other keys) between the change
     # and the EXEC must not forget the change; watching twice without a change must not invent one
     for j, rewatch in enumerate((("K",), ("K", "other"), ("other", "K"), ("other",), ("K", "K"))):
